@@ -418,6 +418,35 @@ def judge(case):
                 if got != {regname: set(want)}:
                     fails.append(("used_qubits-wrong:whole-register-argument:%s" % tag, {"register": rname, "expected": sorted(want), "got": str(got)[:160]}))
                     break
+        # ... and alias fill-in of such statements: refused (the pass documents that it cannot write a whole alias in terms
+        # of the register) or rewritten to something that denotes the same qubits
+        from jaqalpaq.core import Circuit
+
+        c2 = Circuit(native_gates={"Wreg": wdef})
+        c2.constants.update(ce.constants)
+        c2.registers.update(ce.registers)
+        wanted = []
+        for rname, robj in ce.registers.items():
+            if hasattr(robj, "resolve_size") and rname in core_m.regs and core_m.regs[rname][0] == "R":
+                c2.body.statements.append(wdef(robj))
+                wanted.append((rname, {e[2] for e in ev.elems(core_m.regs[rname], {})}))
+        for k_, (rname, want) in enumerate(wanted):
+            c3 = Circuit(native_gates={"Wreg": wdef})
+            c3.constants.update(ce.constants)
+            c3.registers.update(ce.registers)
+            c3.body.statements.append(c2.body.statements[k_])
+            o = lib.outcome(lib.fill_in_map, c3)
+            info["whole_fill"] = info.get("whole_fill", 0) + 1
+            if o[0] == "jaqal":
+                continue
+            if o[0] != "ok":
+                fails.append(("fill_in_map-raised:whole-register-argument:" + o[1], {"register": rname, "error": o[2]}))
+                break
+            og = lib.outcome(lib.used_qubits, o[1])
+            got = {i for _k, v in dict(og[1]).items() for i in v} if og[0] == "ok" else str(og[1:3])[:120]
+            if got != want:
+                fails.append(("fill_in_map-changed-meaning:whole-register-argument", {"register": rname, "expected": sorted(want), "got": str(got)[:120]}))
+                break
     except M.MeaningError:
         pass
     # (5) pyGSTi label
@@ -565,6 +594,7 @@ def process(ctx, case, feats):
     rec.count("consumer:pygsti", info["gsti"])
     rec.count("consumer:resolution-in-context", info.get("ctx", 0))
     rec.count("consumer:whole-register-argument", info.get("whole", 0))
+    rec.count("consumer:fill_in_map-of-whole-register-argument", info.get("whole_fill", 0))
     rec.count("consumer:resolve_qubit:macros-expanded-before-lets", info.get("ml", 0))
     if "gsti_unavailable" in info:
         rec.note("pygsti_unavailable", info["gsti_unavailable"])
